@@ -751,8 +751,10 @@ pub(crate) fn solve_expression(
             match value {
                 Value::Object(o) => solve_expression(e, identifiers, &o),
                 Value::Array(a) => {
+                    // NOTE: Blocks merged by the optimiser are marked with an and-group, each of
+                    // them may be satisfied by a different element
                     if let Expression::Match(Match::All, expression) = &**e {
-                        if let Expression::BooleanGroup(BoolSym::Or, expressions) = &**expression {
+                        if let Expression::BooleanGroup(BoolSym::And, expressions) = &**expression {
                             for expression in expressions {
                                 let mut res = SolverResult::Missing;
                                 for v in a.iter() {
